@@ -117,24 +117,20 @@ func runC10(c *core.Ctx) {
 		for i, sv := range sent {
 			c.Instance("R1")
 			name := fmt.Sprintf("%s/enqueue#%d", core.FName(E), i+1)
-			for _, leaf := range sliceOrigins(sv.v) {
-				switch {
-				case isFreshPoolBuf(leaf):
-					c.OK("R1", name+"/origin-pool", p.InstrPos(sv.in), "queued packet is a fresh pool buffer")
-				default:
-					pi := core.ParamOf(E, leaf)
-					if pi < 0 {
-						c.Bad("R1", name+"/origin", p.InstrPos(sv.in), "the value sent on the write queue does not derive from a fresh pool buffer: "+leaf.String())
-						continue
-					}
-					e.checkParamEnqueue(c, E, pi, sv.v, name, 0)
-				}
-			}
+			e.checkSentValue(c, E, sv.v, sv.in, name, 0)
 		}
 	}
 
 	// ---- R2 copies
-	for _, E := range r.Enqueuers {
+	scan := map[*ssa.Function]bool{}
+	var scanL []*ssa.Function
+	for _, E := range append(append([]*ssa.Function{}, r.Enqueuers...), e.logicalEnqueuers()...) {
+		if !scan[E] {
+			scan[E] = true
+			scanL = append(scanL, E)
+		}
+	}
+	for _, E := range scanL {
 		core.AllInstrs(E, func(in ssa.Instruction) {
 			args, ok := core.IsBuiltinCall(in, "copy")
 			if !ok {
@@ -393,6 +389,68 @@ func capArg(v ssa.Value) (ssa.Value, bool) {
 		}
 	}
 	return nil, false
+}
+
+// checkSentValue: `v` (in fn) is what ends up on the write queue. Its slice origins must be fresh pool buffers;
+// a parameter origin is followed: through the clone==false phi idiom (checkParamEnqueue), or - when fn is an
+// enqueue helper that sends its parameter as is - to the argument at every call site.
+func (e *ev) checkSentValue(c *core.Ctx, fn *ssa.Function, v ssa.Value, at ssa.Instruction, name string, depth int) {
+	p := c.P
+	if depth > 3 {
+		c.Unk("R1", name+"/chain", p.InstrPos(at), "enqueue helper chain too deep")
+		return
+	}
+	for _, leaf := range sliceOrigins(v) {
+		switch {
+		case isFreshPoolBuf(leaf):
+			c.OK("R1", name+"/origin-pool", p.InstrPos(at), "queued packet is a fresh pool buffer")
+		default:
+			pi := core.ParamOf(fn, leaf)
+			if pi < 0 {
+				c.Bad("R1", name+"/origin", p.InstrPos(at), "the value sent on the write queue does not derive from a fresh pool buffer: "+leaf.String())
+				continue
+			}
+			// unconditional forwarding by an enqueue helper: look at the callers' arguments
+			if core.Unwrap(v) == leaf || onlySlicesOf(v, leaf) {
+				if e.isEnqueueHelper(fn) || depth > 0 {
+					n := 0
+					for _, caller := range p.Funcs {
+						core.AllInstrs(caller, func(in ssa.Instruction) {
+							cc := core.CallCommon(in)
+							if cc == nil || cc.IsInvoke() || cc.StaticCallee() != fn {
+								return
+							}
+							n++
+							c.Instance("R1")
+							c.CallSites++
+							e.checkSentValue(c, caller, cc.Args[pi], in, name+"<-"+core.FName(caller), depth+1)
+						})
+					}
+					if n == 0 {
+						c.Unk("R1", name+"/callers", p.Pos(fn.Pos()), "enqueue helper has no static caller")
+					}
+					continue
+				}
+			}
+			e.checkParamEnqueue(c, fn, pi, v, name, 0)
+		}
+	}
+}
+
+// onlySlicesOf: v is leaf possibly re-sliced (no phi merging other values).
+func onlySlicesOf(v, leaf ssa.Value) bool {
+	v = core.Unwrap(v)
+	for d := 0; d < 6; d++ {
+		if v == leaf {
+			return true
+		}
+		sl, ok := v.(*ssa.Slice)
+		if !ok {
+			return false
+		}
+		v = core.Unwrap(sl.X)
+	}
+	return false
 }
 
 // checkParamEnqueue: parameter #pi of fn reaches the queue. Accept only if it does so exclusively on the
